@@ -290,9 +290,46 @@ Definition run_present_spec := run_present_with (fun d => Ok (spec_present d)).
 Definition run_empty_args (x : xval) : xval := x_outcome (x_option XB) empty_args_next.
 Definition run_empty_args_v0 (x : xval) : xval := x_outcome (x_option XB) empty_args_next_v0.
 
+(** structured input (L (L word...) crlf rest): the line is rendered from its words (joined by single
+    spaces); [present.spec_line] is the right-hand side of the theorem [present_line_spec] where its
+    hypothesis holds (decided by [words_ok_b]) and the model otherwise. *)
+Definition words_ok_b (ws : list bytes) : bool :=
+  forallb word_ok ws && negb (starts_with PRESENT_INTERNAL_AND (render_words ws ++ [LF])).
+Definition d_line (x : xval) : option (list bytes * bool * bytes) :=
+  match x with
+  | XL [ws; c; XB rest] =>
+      match d_list d_B ws, d_bool c with
+      | Some ws, Some c => Some (ws, c, rest)
+      | _, _ => None
+      end
+  | _ => None
+  end.
+Definition run_present_line (x : xval) : xval :=
+  match d_line x with
+  | Some (ws, c, rest) => x_outcome (x_option x_parsed) (present_parse (render_line ws c ++ rest))
+  | None => bad_input
+  end.
+Definition run_present_spec_line (x : xval) : xval :=
+  match d_line x with
+  | Some (ws, c, rest) =>
+      if words_ok_b ws then
+        x_outcome (x_option x_parsed)
+          (Ok (Some {| p_entries := group_words None (nonempty_words ws);
+                       p_data_start := length (render_line ws c);
+                       p_body := rest |}))
+      else run_present_line x
+  | None => bad_input
+  end.
+(** [present.nopanic]: the statement of [present_never_panics] is checked on the implementation's
+    output by the driver (outcome Ok, data_start <= len, body = input from data_start). *)
+Definition run_nopanic (x : xval) : xval := XL [XN 0].
+
 Definition presentline_table : list (bytes * (xval -> xval)) :=
   [ (B "present.parse", run_present);
     (B "present.parse_v0", run_present_v0);
     (B "present.spec", run_present_spec);
+    (B "present.line", run_present_line);
+    (B "present.spec_line", run_present_spec_line);
+    (B "present.nopanic", run_nopanic);
     (B "present.empty_args", run_empty_args);
     (B "present.empty_args_v0", run_empty_args_v0) ].
